@@ -97,21 +97,39 @@ def transformations():
     return T
 
 
-def check_one(ck, name, specs, aux_specs, n, rng, record=True):
+def check_one(ck, name, specs, aux_specs, n, rng, record=True, sparse=False):
     """Run one transformation on the real classes and evaluate the property with numpy.
-    Returns (ok, detail, out_gates or None)."""
+    All unitaries are computed on the COMPACTED index set (sorted qubits used by the two input
+    circuits -> 0..k-1), so sparse index sets reaching large indices cost nothing.
+    Returns (ok, detail, out, kind)."""
     from tangelo.linq import Circuit
     from tangelo.linq import circuit as cmod
-    c = Circuit([LC.make_gate(s) for s in specs], n_qubits=n)
-    aux = Circuit([LC.make_gate(s) for s in aux_specs], n_qubits=n)
+    nq = None if sparse else n
+    c = Circuit([LC.make_gate(s) for s in specs], n_qubits=nq)
+    aux = Circuit([LC.make_gate(s) for s in aux_specs], n_qubits=nq)
     gin, gaux = NS.gates_of(c), NS.gates_of(aux)
+
+    def qubits(gs):
+        out = set()
+        for (_, t, ctl, _) in gs:
+            out |= set(t) | set(ctl or [])
+        return out
+    used_all = sorted(qubits(gin) | qubits(gaux) | (set(range(n)) if not sparse else set()))
+    cmap = {q: i for i, q in enumerate(used_all)}
+    k = max(len(used_all), 1)
+
+    def UC(gs):
+        if not qubits(gs) <= set(cmap):
+            return None
+        return NS.unitary(rename(gs, cmap), k)
     before, before_aux = LC.show_circ_impl(c)[0], LC.show_circ_impl(aux)[0]
-    Uin = NS.unitary(gin, n)
+    Uin, Uaux = UC(gin), UC(gaux)
     T = transformations()
     detail = ""
     try:
         if name == "reindex_qubits":
-            perm = list(range(n))
+            idx = sorted(c._qubit_indices)
+            perm = list(range(len(idx)))
             rng.shuffle(perm)
             c2 = c.copy()
             c2.reindex_qubits(perm)
@@ -123,61 +141,82 @@ def check_one(ck, name, specs, aux_specs, n, rng, record=True):
     mutated = LC.show_circ_impl(c)[0] != before or LC.show_circ_impl(aux)[0] != before_aux
     ok = True
     kind = "value"
+
+    def dist(Ua, Ub):
+        return 9.0 if (Ua is None or Ub is None) else NS.phase_distance(Ua, Ub)
     # ---- expected operator
     if name == "inverse":
-        Uout = U(out, n)
-        d = NS.phase_distance(Uout @ Uin, np.eye(1 << n))
-    elif name in ("copy", "merge_rotations", "remove_redundant_gates", "trim_noop"):
-        d = NS.phase_distance(U(out, max(n, out.width)), Uin) if out.width <= n else 9.0
+        Uout = UC(NS.gates_of(out))
+        d = 9.0 if Uout is None else NS.phase_distance(Uout @ Uin, np.eye(1 << k))
+    elif name in ("copy", "merge_rotations", "remove_redundant_gates"):
+        d = dist(UC(NS.gates_of(out)), Uin)
     elif name in ("remove_small_rotations", "simplify"):
-        # allowed deviation: half the sum of the dropped angles (reduced mod 2*pi), here all dropped
-        # angles are below the default threshold 1e-3 when the pass is right
         n_removed = max(0, len(gin) - out.size)
-        d = NS.phase_distance(U(out, n), Uin) - 0.5e-3 * n_removed - 1e-9
+        d = dist(UC(NS.gates_of(out)), Uin) - 0.5e-3 * n_removed - 1e-9
     elif name == "concat":
-        d = NS.phase_distance(U(out, n), NS.unitary(gaux, n) @ Uin)
+        d = dist(UC(NS.gates_of(out)), Uaux @ Uin)
     elif name == "repeat":
-        d = NS.phase_distance(U(out, n), Uin @ Uin)
+        d = dist(UC(NS.gates_of(out)), Uin @ Uin)
     elif name == "split":
-        Ut = np.eye(1 << n, dtype=complex)
+        Ut = np.eye(1 << k, dtype=complex)
+        bad = False
         for part in out:
-            Ut = NS.unitary(NS.gates_of(part), n) @ Ut
-        d = NS.phase_distance(Ut, Uin)
+            Up = UC(NS.gates_of(part))
+            if Up is None:
+                bad = True
+                break
+            Ut = Up @ Ut
+        d = 9.0 if bad else NS.phase_distance(Ut, Uin)
     elif name == "split_trim":
         sets = [sorted(s) for s in c.get_entangled_indices()]
-        Ut = np.eye(1 << n, dtype=complex)
+        Ut = np.eye(1 << k, dtype=complex)
         if len(sets) != len(out):
             d = 9.0
         else:
-            for part, s in zip(out, sets):
-                emb = rename(NS.gates_of(part), {i: q for i, q in enumerate(s)})
-                Ut = NS.unitary(emb, n) @ Ut
-            d = NS.phase_distance(Ut, Uin)
+            bad = False
+            for part, sset in zip(out, sets):
+                pg = NS.gates_of(part)
+                if not qubits(pg) <= set(range(len(sset))):
+                    bad = True
+                    break
+                emb = rename(pg, {i: cmap[q] for i, q in enumerate(sset)})
+                Ut = NS.unitary(emb, k) @ Ut
+            d = 9.0 if bad else NS.phase_distance(Ut, Uin)
     elif name == "stack":
-        used1 = sorted(set().union(*c.get_entangled_indices())) if c.size else []
-        used2 = sorted(set().union(*aux.get_entangled_indices())) if aux.size else []
+        used1, used2 = sorted(qubits(gin)), sorted(qubits(gaux))
         w = len(used1) + len(used2)
         e1 = rename(gin, {q: i for i, q in enumerate(used1)})
         e2 = rename(gaux, {q: i + len(used1) for i, q in enumerate(used2)})
-        if out.width != w or w == 0:
-            d = 0.0 if (w == 0 and out.size == 0) else 9.0
+        if w == 0:
+            d = 0.0 if out.size == 0 else 9.0
+        elif out.width != w or not qubits(NS.gates_of(out)) <= set(range(w)):
+            d = 9.0
         else:
             d = NS.phase_distance(U(out, w), NS.unitary(e1 + e2, w))
     elif name == "trim_qubits":
-        used = sorted(set().union(*c.get_entangled_indices())) if c.size else []
+        used = sorted(qubits(gin))
         w = len(used)
         if w == 0:
             d = 0.0
+        elif out.width != w or not qubits(NS.gates_of(out)) <= set(range(w)):
+            d = 9.0
         else:
-            d = NS.phase_distance(U(out, w), NS.unitary(rename(gin, {q: i for i, q in enumerate(used)}), w)) if out.width == w else 9.0
+            d = NS.phase_distance(U(out, w), NS.unitary(rename(gin, {q: i for i, q in enumerate(used)}), w))
     elif name == "reindex_qubits":
-        d = NS.phase_distance(U(out, n), NS.unitary(rename(gin, {i: perm[i] for i in range(n)}), n))
+        w = len(idx)
+        og = NS.gates_of(out)
+        if w == 0:
+            d = 0.0
+        elif not qubits(og) <= set(range(w)):
+            d = 9.0
+        else:
+            d = NS.phase_distance(NS.unitary(og, w), NS.unitary(rename(gin, {idx[i]: perm[i] for i in range(w)}), w))
     else:
         d = 0.0
     if d > TOL:
         ok = False
         detail = "operator differs (distance up to phase %.3g)" % d
-    if mutated and name not in ():
+    if mutated:
         ok = False
         kind = "operand-mutated"
         detail = "input circuit changed by out-of-place %s" % name
@@ -222,24 +261,28 @@ def run(ck):
         n = rng.randint(2, 4)
         specs = LC.rand_gate_list(rng, n, rng.randint(1, 9), LC.ALL_UNITARY, echo_p=0.45, var_p=0.1)
         aux_specs = LC.rand_gate_list(rng, n, rng.randint(0, 4), LC.ALL_UNITARY, var_p=0.1)
+        sparse = rng.random() < 0.35
+        if sparse:
+            emb = LC.sparse_embedding(rng, n)
+            specs, aux_specs = LC.embed_specs(specs, emb), LC.embed_specs(aux_specs, emb)
         for name in names:
-            ok, detail, out, kind = check_one(ck, name, specs, aux_specs, n, rng)
+            ok, detail, out, kind = check_one(ck, name, specs, aux_specs, n, rng, sparse=sparse)
             out_list = out if isinstance(out, list) else ([out] if out is not None else [])
             changed = out is not None and (isinstance(out, list) or [LC.show_gate_impl(g)[0] for g in out._gates] != [LC.show_gate_impl(LC.make_gate(s))[0] for s in specs])
             near = any(s["name"] in ("CRX", "CRY", "CRZ") and s["k"] is not None and s["k"] % 16 == 0 for s in specs)
             ck.case("transformations", json.dumps([name, specs, aux_specs], default=str), nontrivial=bool(changed or near),
                     sample={"transformation": name, "n": n, "gates": specs[:6]}, tags=[name])
             if not ok:
-                def fails(cand, name=name, aux_specs=aux_specs, n=n):
-                    return not check_one(ck, name, cand, aux_specs, n, rng)[0]
+                def fails(cand, name=name, aux_specs=aux_specs, n=n, sparse=sparse):
+                    return not check_one(ck, name, cand, aux_specs, n, rng, sparse=sparse)[0]
                 small = shrink(specs, fails)
                 gin = [(s["name"], s["target"], s["control"], LC.theta(s["k"]) if s["k"] is not None else None) for s in small]
                 cls = classify(gin) if kind == "value" else kind
                 ck.violation("C09/%s/%s" % (name, cls), "%s: %s; minimal circuit %s" % (name, detail, [LC.show_gate_impl(LC.make_gate(s))[0] for s in small]),
-                             {"kind": "transformation", "name": name, "n": n, "specs": small, "aux": aux_specs})
+                             {"kind": "transformation", "name": name, "n": n, "specs": small, "aux": aux_specs, "sparse": sparse})
             # exact validation of the artefact by the proved interpreter (subset, small registers)
             if out is not None and not isinstance(out, list) and name in ("inverse", "merge_rotations", "remove_redundant_gates", "remove_small_rotations", "simplify", "copy") \
-                    and n <= 3 and len(eq_exprs) < (60 if ck.tier == "quick" else 600) and out.width <= n:
+                    and n <= 3 and not sparse and len(eq_exprs) < (60 if ck.tier == "quick" else 600) and out.width <= n:
                 gs_in = [LC.coq_gate(s) for s in specs]
                 gs_out = [LC.coq_gate(LC.spec_of_gate(g)) for g in out._gates]
                 if all(LC.spec_of_gate(g).get("offgrid") is None for g in out._gates):
@@ -249,7 +292,7 @@ def run(ck):
                     eq_cases.append((name, specs, ok))
         # structural correspondence with the Coq model of the passes (through the C11 history machinery)
         if ci < (60 if ck.tier == "quick" else 800):
-            h = [("new", specs, n), ("new", aux_specs, n), ("inverse", 0), ("concat", 0, 1), ("merge_fn", 0), ("redundant_fn", 0, False),
+            h = [("new", specs, None if sparse else n), ("new", aux_specs, None if sparse else n), ("inverse", 0), ("concat", 0, 1), ("merge_fn", 0), ("redundant_fn", 0, False),
                  ("small_fn", 0, False), ("simplify_fn", 0, 100, False), ("split", 0, True), ("stack", [0, 1]), ("copy", 0), ("trim", 10)]
             hist_cases.append(h)
     # ---- exact validation in Coq
@@ -368,7 +411,7 @@ def replay(data):
     from harness.lib import Check
     if r.get("kind") == "transformation":
         ck = type("X", (), {})()
-        ok, detail, out, kind = check_one(None, r["name"], r["specs"], r["aux"], r["n"], random.Random(0))
+        ok, detail, out, kind = check_one(None, r["name"], r["specs"], r["aux"], r["n"], random.Random(0), sparse=r.get("sparse", False))
         print(r["name"], "ok" if ok else "FAILS", detail)
         return 0 if ok else 1
     if r.get("kind") == "gate_eq":
